@@ -76,6 +76,10 @@ COLS_J = [
     ("v_color_tt", "j.hits().Select(lambda h: j.color())", ["seq", ["val", "MyNS::Color", ["int"]]], None, 1),
     ("cmp", "j.pt() > 1", ["val", "bool", []], "b", 0),
     # a method nobody declared for THIS class (another class declares the same name as int): the documented default double
+    # a method declared to return a const-qualified VALUE: the column stores the value type (a const column cannot be filled)
+    ("cflt", "j.cflt()", ["val", "float", []], "f", 0),
+    ("cflt_arith", "j.cflt() * 2", ["val", "float", []], "f", 0),
+    ("v_cflt", "j.hits().Select(lambda h: j.cflt())", ["seq", ["val", "float", []]], "f", 1),
     ("undecl", "j.undecl()", ["val", "double", []], None, 0),
     ("v_undecl", "j.hits().Select(lambda h: j.undecl())", ["seq", ["val", "double", []]], None, 1),
     ("div", "j.nTrk()/2", ["val", "double", []], "f", 0),
@@ -93,7 +97,7 @@ EXPECT_TYPE = {
           "v_bool": "std::vector<bool>", "v_float": "std::vector<float>", "v_flt_tt": "std::vector<double>", "v_color_tt": "std::vector<int>",
           "v_qual_tt": "std::vector<double>", "vv_color_tt": "std::vector<std::vector<MyNS::Color>>", "vv_flt_tt": "std::vector<std::vector<float>>",
           "vv_dbl": "std::vector<std::vector<double>>", "vv_int": "std::vector<std::vector<int>>"},
-    "J": {"undecl": "double", "v_undecl": "std::vector<double>", "int": "int", "dbl": "double", "bool": "bool", "float": "float", "pow_int": "double", "pow_lit": "double", "flt_tt": "double", "color_tt": "int", "qual_tt": "double",
+    "J": {"cflt": "float", "cflt_arith": "float", "v_cflt": "std::vector<float>", "undecl": "double", "v_undecl": "std::vector<double>", "int": "int", "dbl": "double", "bool": "bool", "float": "float", "pow_int": "double", "pow_lit": "double", "flt_tt": "double", "color_tt": "int", "qual_tt": "double",
           "v_color_tt": "std::vector<int>", "cmp": "bool", "div": "double", "cond": "double", "v_int": "std::vector<int>", "v_dbl": "std::vector<double>"},
 }
 # malformed columns: raw collection (not iterated), nested structure, sequence of structures
@@ -167,6 +171,7 @@ def metadata(uni: qgen.Universe):
         md.append({"metadata_type": "add_method_type_info", "type_string": t, "method_name": "flt", "return_type": "float", "tree_type": "double"})
         md.append({"metadata_type": "add_method_type_info", "type_string": t, "method_name": "color", "return_type": "MyNS::Color", "tree_type": "int"})
         md.append({"metadata_type": "add_method_type_info", "type_string": t, "method_name": "qual", "return_type": "MyNS::Quality", "tree_type": "double"})
+        md.append({"metadata_type": "add_method_type_info", "type_string": t, "method_name": "cflt", "return_type": "const float"})
     # the same method name declared on a class no query touches: it says nothing about the classes the queries use
     md.append({"metadata_type": "add_method_type_info", "type_string": "FvNS::Unrelated", "method_name": "undecl", "return_type": "int"})
     md.append({"metadata_type": "add_method_type_info", "type_string": "FvNS::Unrelated_v1", "method_name": "undecl", "return_type": "int"})
